@@ -726,7 +726,7 @@ class Controller(object):
         elif ratio <= 250.0:
             new_rho = sqrt(ratio) * self.rhoend  # geometric average of rho and rhoend
         else:
-            new_rho = alpha1 * self.rho
+            new_rho = max(alpha1 * self.rho, self.rhoend)  # never below rhoend (alpha1 < 1/250 would otherwise overshoot it)
 
         self.delta = max(alpha2 * self.rho, new_rho)  # self.rho = old rho
         self.rho = new_rho
